@@ -1,4 +1,5 @@
 import CssVerif.Lemmas.Num
+import CssVerif.Lemmas.NumColor
 /-!
 # C18 — value normalisation never changes what a value denotes
 
@@ -27,7 +28,7 @@ theorem prefs_tables :
 /-- the regular expressions transcribed by hand are the ones in the source (a changed pattern breaks this) -/
 theorem regex_sources_pinned :
     Gen.C18.reUnNumDimPattern = ("^([+-]?)([0-9]*\\.[0-9]+|[0-9]+)(.*)$", "re.I|re.S|re.U|re.X") ∧
-    Gen.C18.reHexcolorPattern = ("^\\#(?:[0-9abcdefABCDEF]{3}|[0-9abcdefABCDEF]{6})$", "") ∧
+    Gen.C18.reHexcolorPattern = ("^\\#(?:[0-9abcdefABCDEF]{3}|[0-9abcdefABCDEF]{6})\\Z", "") ∧
     Gen.C18.simpleescapesPattern = ("(\\\\[^0-9a-fA-F])", "") ∧
     Gen.C18.forbiddenInUriPattern = (".*?[\\(\\)\\s\\;,'\"]", "re.U") ∧
     Gen.C18.stringReplaces = [([0x0A], cps "\\a "), ([0x0D], cps "\\d "), ([0x0C], cps "\\c "), ([0x22], cps "\\\"")] := by
@@ -46,7 +47,7 @@ zeros of the integer part and trailing zeros of the fraction dropped, unit in lo
 (unit-less exactly after the eight length units), a single `0` before the point exactly when `omitLeadingZero`
 is off — for every literal with at most six fraction digits, every unit, every preference record. -/
 theorem number_written_canonical (l : Lit) (h : l.Wf) (p : Prefs) (typ : NumType)
-    (hsp : isBlank p.spacer = true) (h6 : (l.fp.getD []).length ≤ 6) (hov : floatOverflows l.ip = false) :
+    (hsp : isBlank p.spacer = true) (h6 : (l.fp.getD []).length ≤ 6) (hov : l.tooLarge = false) :
     roundTrip p typ l.text = .ok (canonLit p.omitLeadingZero l).text :=
   roundTrip_canon h p typ hsp h6 hov
 
@@ -54,7 +55,7 @@ theorem number_written_canonical (l : Lit) (h : l.Wf) (p : Prefs) (typ : NumType
 (`Lit.value`, computed from the parts) and the same unit; the only unit ever dropped is a zero-length unit after
 a zero value. -/
 theorem number_denotes (l : Lit) (h : l.Wf) (p : Prefs) (typ : NumType)
-    (hsp : isBlank p.spacer = true) (h6 : (l.fp.getD []).length ≤ 6) (hov : floatOverflows l.ip = false) :
+    (hsp : isBlank p.spacer = true) (h6 : (l.fp.getD []).length ≤ 6) (hov : l.tooLarge = false) :
     ∃ out d, roundTrip p typ l.text = .ok out ∧ denote out = some d ∧ denote l.text = some l.den ∧
       l.den.toRat = l.value ∧ d.toRat = l.value ∧
       (d.unit = l.unit.map lowerAscii ∨
@@ -73,11 +74,11 @@ theorem number_denotes (l : Lit) (h : l.Wf) (p : Prefs) (typ : NumType)
 /-- **T18.2** normalisation is idempotent: the written text, parsed again (as whatever numeric token type),
 is written unchanged. -/
 theorem number_idempotent (l : Lit) (h : l.Wf) (p : Prefs) (typ typ' : NumType)
-    (hsp : isBlank p.spacer = true) (h6 : (l.fp.getD []).length ≤ 6) (hov : floatOverflows l.ip = false) :
+    (hsp : isBlank p.spacer = true) (h6 : (l.fp.getD []).length ≤ 6) (hov : l.tooLarge = false) :
     ∃ out, roundTrip p typ l.text = .ok out ∧ roundTrip p typ' out = .ok out := by
   refine ⟨_, roundTrip_canon h p typ hsp h6 hov, ?_⟩
   have hw := Wf.canon h p.omitLeadingZero
-  have := roundTrip_canon hw p typ' hsp (canon_frac_le h6 _) (canon_no_overflow hov _)
+  have := roundTrip_canon hw p typ' hsp (canon_frac_le h6 _) (canon_not_tooLarge h hov _)
   rw [this, canonLit_idem l _ (by decide)]
 
 /-- sign rule, spelled out: a `-` is kept on every non-zero number, a `+` is kept exactly when it was written and
@@ -93,11 +94,15 @@ theorem number_sign_kept (l : Lit) (olz : Bool) :
 /-- zero rule, spelled out: a zero value is written `0`, followed by its unit unless that is one of the eight
 length units — whatever the sign and however many zeros were written -/
 theorem number_zero (l : Lit) (h : l.Wf) (p : Prefs) (typ : NumType) (hsp : isBlank p.spacer = true)
-    (h6 : (l.fp.getD []).length ≤ 6) (hi : E.allZero l.ip = true) (hf : E.allZero (l.fp.getD []) = true) :
+    (h6 : (l.fp.getD []).length ≤ 6) (hi : E.allZero l.ip = true) (hf : E.allZero (l.fp.getD []) = true)
+    (hlen : l.ip.length ≤ Gen.C18.maxStrDigits) :
     roundTrip p typ l.text =
       .ok (cZero :: (if zeroLenUnits.contains (l.unit.map lowerAscii) then [] else l.unit.map lowerAscii)) := by
-  have hov : floatOverflows l.ip = false := by
-    unfold floatOverflows; rw [natOfDigits_allZero hi]; decide +kernel
+  have hov : l.tooLarge = false := by
+    unfold Lit.tooLarge
+    cases l.fp with
+    | none => simpa using hlen
+    | some _ => simp only; unfold floatOverflows; rw [natOfDigits_allZero hi]; decide +kernel
   rw [roundTrip_canon h p typ hsp h6 hov, canonLit_zero _ hi hf]
   simp [Lit.text, fracText]
 
@@ -128,5 +133,76 @@ theorem hash_changes_only_when_lossless (p : Prefs) (v : List Nat) (h : hashShor
       exact ⟨hm, x, a, c, e, rfl, by simp [hm]⟩
     · exact absurd rfl h
   · exact absurd rfl h
+
+
+/-- T18.3b: a short hash has the channels of its long form — for every three characters (all 22³ hex spellings
+included), by computation of the model, not by enumeration -/
+theorem hash_short_eq_long (x y a b c : Nat) :
+    hashChannels [x, a, b, c] = hashChannels [y, a, a, b, b, c, c] := rfl
+
+/-- T18.3c: every text that passes `reHexcolor` has channels (no exception), each `17·digit` for the short form -/
+theorem hash_channels_total (v : List Nat) (h : isHexColor v = true) : ∃ c, hashChannels v = .ok c := by
+  unfold isHexColor at h
+  cases v with
+  | nil => simp at h
+  | cons x t =>
+    simp only [Bool.and_eq_true, Bool.or_eq_true, decide_eq_true_eq] at h
+    obtain ⟨⟨_, hl⟩, hall⟩ := h
+    have hx : ∀ c ∈ t, ∃ v, hexVal? c = some v ∧ v < 16 := fun c hc => hexVal_isSome_of_hex (List.all_eq_true.mp hall c hc)
+    rcases hl with hl | hl
+    · match t, hl, hx with
+      | [a, b, c], _, hx =>
+        obtain ⟨va, ha, _⟩ := hx a (by simp)
+        obtain ⟨vb, hb, _⟩ := hx b (by simp)
+        obtain ⟨vc, hc, _⟩ := hx c (by simp)
+        simp only [hashChannels, hexPair?, ha, hb, hc]; exact ⟨_, rfl⟩
+    · match t, hl, hx with
+      | [a, b, c, d, e, f], _, hx =>
+        obtain ⟨va, ha, _⟩ := hx a (by simp)
+        obtain ⟨vb, hb, _⟩ := hx b (by simp)
+        obtain ⟨vc, hc, _⟩ := hx c (by simp)
+        obtain ⟨vd, hd, _⟩ := hx d (by simp)
+        obtain ⟨ve, he, _⟩ := hx e (by simp)
+        obtain ⟨vf, hf, _⟩ := hx f (by simp)
+        simp only [hashChannels, hexPair?, ha, hb, hc, hd, he, hf]; exact ⟨_, rfl⟩
+
+/-- **T18.3** `hash_lossless`: whatever `_hash` writes has the channels of what was given — for every text and
+every preference record -/
+theorem hash_lossless (p : Prefs) (v : List Nat) : hashChannels (hashShort p v) = hashChannels v := by
+  by_cases h : hashShort p v = v
+  · rw [h]
+  · obtain ⟨_, x, a, c, e, hv, hs⟩ := hash_changes_only_when_lossless p v h
+    rw [hs, hv]; rfl
+
+/-- the serializer's two passes over a hash colour (`do_css_Value` over `value.value`) write exactly `_hash(v)`:
+together with `hash_lossless` the written hash has the channels of the source hash under every preference record -/
+theorem hash_written (p : Prefs) (hsp : isBlank p.spacer = true) (t : List Nat) :
+    fmtColorSimple p .hash (0x23 :: t) = hashShort p (0x23 :: t) :=
+  fmtColorSimple_hash p hsp t
+
+example : fmtColorSimple Prefs.default .hash (cps "#aaBBcc") = cps "#aBc" := by decide
+example : fmtColorSimple Prefs.default .hash (cps "#aAbbcc") = cps "#aAbbcc" := by decide
+example : fmtColorSimple { Prefs.default with minimizeColorHash := false } .hash (cps "#aabbcc") = cps "#aabbcc" := by
+  decide
+
+/-! ## T18.4 colour channels -/
+
+/-- the keyword table of the source is the CSS Color Level 3 table (an independent copy kept with the harness):
+same names (each once), same red/green/blue, alpha 1 except `transparent` -/
+theorem colors_are_css3 : colorsAgreeWithCss3 = true := by decide +kernel
+
+/-- a colour keyword, in any letter case and with simple escapes, has the channels of its table entry -/
+theorem keyword_channels (v : List Nat) (c : Rgba) (h : lookupColor (normalize v) Gen.C18.colors = some c) :
+    keywordChannels v = .ok c := by
+  unfold keywordChannels; rw [h]
+
+example : keywordChannels (cps "ReD") = .ok { r := 255, g := 0, b := 0, a := 1 } := by decide +kernel
+example : keywordChannels (cps "transparent") = .ok { r := 0, g := 0, b := 0, a := 0 } := by decide +kernel
+
+/-- **T18.4** the channels of a colour function depend only on its name and on the kind (number / percentage) and
+exact value of each argument: writing the arguments in another way that denotes the same numbers (which is all
+that number normalisation does, T18.1) cannot change red, green, blue or alpha — rgb, rgba, hsl and hsla alike -/
+theorem color_function_channels_stable (s t : List CItem) (h : SameComps s t) : funcChannels s = funcChannels t :=
+  funcChannels_congr h
 
 end CssVerif.C18
